@@ -14,7 +14,7 @@ ASSUMPTIONS = [
     "an error return of a client call that sent nothing is modelled as not touching the future store (the re-check path of "
     "Subscribe/Unsubscribe/Publish stores and removes a future under a fresh id; with restarted packet ids it could cancel an older future "
     "with the same id, cause `replaced`)",
-    "liveness clauses (the service reconnects, every future resolves, Stop returns) are checked by the tie's watchdog (8 s per step, normal "
+    "liveness clauses (the service reconnects, every future resolves, Stop returns) are checked by the tie's watchdog (15 s per step, normal "
     "steps take milliseconds) and stated in Coq as quiescence safety (C17_stop); no fairness proof",
     "the harness orders API calls made from different goroutines itself (call and return are recorded around the call), except in the "
     "`conc-*` scenarios where they race for the service mutex and only the clauses visible without an order are evaluated",
